@@ -34,6 +34,18 @@ CLANG = ['clang++-14', '-std=c++20', '-S', '-emit-llvm', '-O0', '-fno-discard-va
 CACHE_DIR = os.environ.get('VERIF_CACHE_DIR', '/var/tmp/verif_cache')
 try: CBMC_VERSION = subprocess.run(['cbmc', '--version'], capture_output=True, text=True).stdout.strip()
 except Exception: CBMC_VERSION = '?'
+def heavy_slot(mem_gb, n_slots=int(os.environ.get('VERIF_HEAVY_SLOTS', '2'))):
+    """jobs allowed 16 GB or more run at most n_slots at a time: take one of n_slots lock files (flock, released when the handle is closed)"""
+    if not mem_gb or mem_gb < 16: return None
+    import fcntl
+    while True:
+        for i in range(n_slots):
+            try:
+                f = open('/var/tmp/verif_heavy_%d.lock' % i, 'w'); fcntl.flock(f, fcntl.LOCK_EX | fcntl.LOCK_NB); return f
+            except OSError:
+                try: f.close()
+                except Exception: pass
+        time.sleep(2)
 class Undecided(Exception):
     """extraction break, tool failure, timeout: exit 2"""
 
@@ -241,7 +253,10 @@ def run_job(job, cfg, scratch, keep=False, variant=None):
                         cd = json.load(open(cf)); rc, so, se, dt = cd['rc'], cd['so'], cd['se'], cd['dt']; r.cached = True
                     except Exception: r.cached = False
         if not r.cached:
-            rc, so, se, dt = sh(cb, timeout=job.timeout, mem_gb=job.mem_gb)
+            slot = heavy_slot(job.mem_gb)       # machine-wide limit on concurrently running memory-hungry back-end calls (also across invocations)
+            try: rc, so, se, dt = sh(cb, timeout=job.timeout, mem_gb=job.mem_gb)
+            finally:
+                if slot is not None: slot.close()
             if ck and rc in (0, 10):
                 try:
                     os.makedirs(CACHE_DIR, exist_ok=True); tmpf = os.path.join(CACHE_DIR, '%s.%d.tmp' % (ck, os.getpid()))
